@@ -81,19 +81,8 @@ func (h H) majorityOverVoters(rule string) {
 	fn := h.fn("raft:(*leader).majorityMatchIndex")
 	fi := h.P.Info(fn)
 	const nodes = "leader.Raft.storage.configs.Latest.Nodes"
-	// range variable: the alloc that receives each(nodes).val
-	var nVar string
-	core.Instrs(fn, func(in ssa.Instruction) {
-		if st, ok := in.(*ssa.Store); ok {
-			if fi.Sym(st.Val).String() == "each("+nodes+").val" {
-				nVar = fi.Sym(st.Addr).String()
-			}
-		}
-	})
-	if nVar == "" {
-		// range value used directly (no copy)
-		nVar = "each(" + nodes + ").val"
-	}
+	// range variable (named like the range value when it is a plain copy of it)
+	nVar := h.rangeVar(fn, nodes)
 	var counter string
 	nStores := 0
 	var sliceName string
@@ -252,4 +241,53 @@ func (h H) followerCommitSites(rule string) {
 		h.C.Check(rule, site, r.OK, h.pos(c), "commit index advanced to "+x+" without canCommit(req, "+x+", term) on the path: "+r.Witness)
 	}
 	h.C.Floor(rule+" (setCommitIndex calls in append handler)", len(calls), 2)
+}
+
+// startIndexFirst (C08.2c): leader.init records startIndex (the first index
+// of the new term) before anything that reads it runs: canChangeConfig's
+// "an entry of this term is committed" test and the commit rule compare
+// against it, and init itself re-evaluates pending configuration actions.
+func (h H) startIndexFirst(rule string) {
+	init := h.fn("raft:(*leader).init")
+	readers := []*ssa.Function{h.fn("raft:(*leader).canChangeConfig"), h.fn("raft:(*leader).onMajorityCommit"), h.fn("raft:(*leader).setCommitIndex")}
+	var store ssa.Instruction
+	for _, s := range h.P.StoresTo(h.P.Field("raft:leader.startIndex")) {
+		if core.Root(s.Fn) == init {
+			store = s.Instr
+		}
+	}
+	if !h.C.Check(rule+" startIndex-set", "(*leader).init", store != nil, h.fpos(init), "leader.init must record startIndex") {
+		return
+	}
+	n := 0
+	k := 0
+	h.P.InstrsScope(init, func(in ssa.Instruction) {
+		ci, ok := in.(ssa.CallInstruction)
+		if !ok || in.Parent() != init {
+			return
+		}
+		reads := false
+		for _, c := range h.P.CalleesOf(ci) {
+			reach := h.P.Reachable(c)
+			for _, r := range readers {
+				if reach[r] || c == r {
+					reads = true
+				}
+			}
+		}
+		if !reads {
+			return
+		}
+		n++
+		k++
+		h.C.Check(rule+" startIndex-before-readers", fmt.Sprintf("(*leader).init call#%d %s", k, calleeLabelOf(ci)), core.Dominates(store, in), h.pos(in), "runs before leader.startIndex is set for this term: the commit-ready test would use the previous leadership's value (0 for a first-time leader)")
+	})
+	h.C.Floor(rule+" (calls in init that read startIndex)", n, 1)
+}
+
+func calleeLabelOf(ci ssa.CallInstruction) string {
+	if f := ci.Common().StaticCallee(); f != nil {
+		return f.Name()
+	}
+	return "dynamic"
 }
